@@ -150,6 +150,21 @@ def step : List String → String
       | none => "bad-op"
     | _, _ => "bad-op"
   | ["rt", st, magic, cmd, payload] => rtStep st magic cmd payload
+  | "addrenc" :: n :: rest =>
+    match nat? n with
+    | some n =>
+      let rec go : Nat → List String → Option (List ElaVerif.P2PCodec.NetAddr)
+        | 0, [] => some []
+        | 0, _ :: _ => none
+        | k + 1, ts :: sv :: ip :: port :: more =>
+          match nat? ts, nat? sv, hexBytes? ip, nat? port, go k more with
+          | some ts, some sv, some ip, some port, some as => some (⟨ts, sv, ip, port⟩ :: as)
+          | _, _, _, _, _ => none
+        | _ + 1, _ => none
+      match go n rest with
+      | some as => toHex (ElaVerif.Wire.encode ElaVerif.WireSchemas.addrMsg (ElaVerif.P2PCodec.addrVal as))
+      | none => "bad-op"
+    | none => "bad-op"
   | ["rtc", st, magic, cmd, _seed, payload] => rtStep st magic cmd payload
   | ["mrt", st, magic, _seed, _n, _mode, payload] => rtStep st magic "merkleblock" payload
   | _ => "bad-op"
